@@ -131,6 +131,14 @@ def gen_conv(rng):
         g[rng.integers(n)] = 0.0
     J = rng.normal(size=(int(rng.integers(1, n + 3)), n))
     H = 2 * J.T @ J * 10.0 ** rng.integers(-2, 2)
+    u = rng.random()
+    if u < 0.03:
+        # flat model (all interpolated residual vectors equal => J = 0 => g = 2J'r = 0, H = 2J'J = 0): what a constant
+        # objective, or an interpolation set clipped onto one point, hands to the step solvers
+        g = np.zeros(n)
+        H = np.zeros((n, n))
+    elif u < 0.06:
+        g = np.zeros(n)     # stationary incumbent, curved model
     # sets active within Delta of the centre
     nactive += sum(1 for p in sets if _dist_to_boundary(p, xopt) < Delta and _dist_to_boundary(p, xopt) > 1e-3 * margin)
     return n, sets, xopt, g, H, Delta, nactive
